@@ -51,6 +51,10 @@ impl<V, G> HnswIndex<V, G> {
     }
 
     fn random_level(&self) -> u8 {
+#[cfg(feature = "verif-hooks")]
+if let Some(l) = crate::verif::hnsw_level() {
+    return l.min(16) as u8;
+}
         let mut rng = rand::thread_rng();
         let ml = 1.0 / (self.params.m as f64).ln();
         let r: f64 = rng.r#gen();
